@@ -32,10 +32,70 @@ var importMap = map[string]string{
 }
 
 type Stats struct {
-	Files, Imports, GoStmts, ChanOps, MemPoints int
+	Files, Imports, GoStmts, ChanOps, MemPoints, MapRanges int
 }
 
-// PackageVars collects the names of package-level variables declared in the .go files of dir.
+// Identifiers (struct fields, variables, parameters) declared with a map type somewhere in the
+// package are collected by name; a range statement over one of them is rewritten to a
+// deterministic iteration (Go randomises map iteration order, which the explorer must own).
+
+func isMapExpr(e ast.Expr) bool {
+	switch x := e.(type) {
+	case *ast.MapType:
+		return true
+	case *ast.CompositeLit:
+		_, ok := x.Type.(*ast.MapType)
+		return ok
+	case *ast.CallExpr:
+		if id, ok := x.Fun.(*ast.Ident); ok && id.Name == "make" && len(x.Args) > 0 {
+			_, ok := x.Args[0].(*ast.MapType)
+			return ok
+		}
+	}
+	return false
+}
+
+func collectMapNames(f *ast.File, into map[string]bool) {
+	ast.Inspect(f, func(n ast.Node) bool {
+		switch x := n.(type) {
+		case *ast.Field:
+			if _, ok := x.Type.(*ast.MapType); ok {
+				for _, nm := range x.Names {
+					into[nm.Name] = true
+				}
+			} else {
+				for _, nm := range x.Names {
+					into["!"+nm.Name] = true // also declared with a non-map type somewhere: ambiguous
+				}
+			}
+		case *ast.ValueSpec:
+			if x.Type != nil {
+				if _, ok := x.Type.(*ast.MapType); ok {
+					for _, nm := range x.Names {
+						into[nm.Name] = true
+					}
+				}
+			}
+			for i, v := range x.Values {
+				if isMapExpr(v) && i < len(x.Names) {
+					into[x.Names[i].Name] = true
+				}
+			}
+		case *ast.AssignStmt:
+			for i, v := range x.Rhs {
+				if isMapExpr(v) && i < len(x.Lhs) {
+					if id, ok := x.Lhs[i].(*ast.Ident); ok {
+						into[id.Name] = true
+					}
+				}
+			}
+		}
+		return true
+	})
+}
+
+// PackageVars collects the names of package-level variables declared in the .go files of dir
+// (and, as a side effect, the package's map-typed names into the returned second map).
 func PackageVars(dir string) (map[string]bool, error) {
 	vars := map[string]bool{}
 	ents, err := os.ReadDir(dir)
@@ -50,6 +110,11 @@ func PackageVars(dir string) (map[string]bool, error) {
 		f, err := parser.ParseFile(fset, filepath.Join(dir, e.Name()), nil, parser.SkipObjectResolution)
 		if err != nil {
 			return nil, err
+		}
+		mn := map[string]bool{}
+		collectMapNames(f, mn)
+		for k := range mn {
+			vars["map:"+k] = true // map-typed names share the table under a prefix
 		}
 		for _, d := range f.Decls {
 			gd, ok := d.(*ast.GenDecl)
@@ -226,6 +291,14 @@ func (r *rewriter) stmt(s ast.Stmt) ast.Stmt {
 	case *ast.RangeStmt:
 		x.X = r.expr(x.X)
 		x.Body.List = r.stmts(x.Body.List)
+		if r.isMapRange(x.X) {
+			return r.rewriteMapRange(x)
+		}
+		if pureExpr(x.X) {
+			// not recognised as a map: checked at run time (panics under the scheduler if it is one)
+			r.needVrt = true
+			x.X = vrtCall("RangeCheck", x.X)
+		}
 	case *ast.SwitchStmt:
 		if x.Init != nil {
 			x.Init = r.stmt(x.Init)
@@ -289,6 +362,65 @@ func (r *rewriter) stmt(s ast.Stmt) ast.Stmt {
 		x.X = r.expr(x.X)
 	}
 	return s
+}
+
+func pureExpr(e ast.Expr) bool {
+	switch x := e.(type) {
+	case *ast.Ident:
+		return true
+	case *ast.SelectorExpr:
+		return pureExpr(x.X)
+	case *ast.ParenExpr:
+		return pureExpr(x.X)
+	}
+	return false
+}
+
+func (r *rewriter) isMapRange(e ast.Expr) bool {
+	switch x := e.(type) {
+	case *ast.Ident:
+		return r.pkgVars["map:"+x.Name] && !r.pkgVars["map:!"+x.Name]
+	case *ast.SelectorExpr:
+		return pureExpr(x.X) && r.pkgVars["map:"+x.Sel.Name] && !r.pkgVars["map:!"+x.Sel.Name]
+	case *ast.ParenExpr:
+		return r.isMapRange(x.X)
+	}
+	return false
+}
+
+// rewriteMapRange turns `for k, v := range m { body }` into an iteration over the sorted keys that
+// skips entries deleted meanwhile (a non-map m fails to compile: vrt.SortedKeys wants a map).
+func (r *rewriter) rewriteMapRange(x *ast.RangeStmt) ast.Stmt {
+	r.needVrt = true
+	r.st.MapRanges++
+	kid := ast.NewIdent("vrtK")
+	var pre []ast.Stmt
+	blank := func(e ast.Expr) bool {
+		if e == nil {
+			return true
+		}
+		id, ok := e.(*ast.Ident)
+		return ok && id.Name == "_"
+	}
+	tok := x.Tok
+	if tok == token.ILLEGAL {
+		tok = token.DEFINE
+	}
+	if !blank(x.Value) {
+		pre = append(pre,
+			&ast.AssignStmt{Lhs: []ast.Expr{ast.NewIdent("vrtV"), ast.NewIdent("vrtOk")}, Tok: token.DEFINE, Rhs: []ast.Expr{&ast.IndexExpr{X: x.X, Index: kid}}},
+			&ast.IfStmt{Cond: &ast.UnaryExpr{Op: token.NOT, X: ast.NewIdent("vrtOk")}, Body: &ast.BlockStmt{List: []ast.Stmt{&ast.BranchStmt{Tok: token.CONTINUE}}}},
+			&ast.AssignStmt{Lhs: []ast.Expr{x.Value}, Tok: tok, Rhs: []ast.Expr{ast.NewIdent("vrtV")}})
+	} else {
+		pre = append(pre,
+			&ast.IfStmt{Init: &ast.AssignStmt{Lhs: []ast.Expr{ast.NewIdent("_"), ast.NewIdent("vrtOk")}, Tok: token.DEFINE, Rhs: []ast.Expr{&ast.IndexExpr{X: x.X, Index: kid}}},
+				Cond: &ast.UnaryExpr{Op: token.NOT, X: ast.NewIdent("vrtOk")}, Body: &ast.BlockStmt{List: []ast.Stmt{&ast.BranchStmt{Tok: token.CONTINUE}}}})
+	}
+	if !blank(x.Key) {
+		pre = append(pre, &ast.AssignStmt{Lhs: []ast.Expr{x.Key}, Tok: tok, Rhs: []ast.Expr{kid}})
+	}
+	body := &ast.BlockStmt{List: append(pre, x.Body.List...)}
+	return &ast.RangeStmt{Key: ast.NewIdent("_"), Value: kid, Tok: token.DEFINE, X: vrtCall("SortedKeys", x.X), Body: body}
 }
 
 func (r *rewriter) exprsIn(c *ast.CallExpr) {
